@@ -268,6 +268,9 @@ def run(ctx):
         if rng.chance(0.12):
             # a chain of <use> elements (a use of a use of a shape): standard SVG, not a cycle
             h = lambda: rng.choice(['href', 'xlink:href'])
+            if rng.chance(0.5):
+                nid = rng.choice(['gr\u00f6\u00dfe', '\u0444\u043e\u0440\u043c\u0430', '\u56f3\u5f621', 'b\u00e9'])      # ids are XML names: letters of any script
+                els += [('rect', [('id', nid), ('x', '3'), ('y', '1'), ('width', '2'), ('height', '2')], None), ('use', [(h(), '#' + nid), ('x', '4')], None)]
             els += [('rect', [('id', 'cr'), ('x', '1'), ('y', '2'), ('width', '6'), ('height', '4')], None),
                     ('use', [('id', 'cu1'), (h(), '#cr')] + ([('x', '10'), ('y', '3')] if rng.chance(0.5) else []), None),
                     ('use', [('id', 'cu2'), (h(), '#cu1')] + ([('x', '5')] if rng.chance(0.3) else []), None)]
